@@ -103,6 +103,10 @@ def identical(I, run, a, b, node) -> bool:
     for x, y in ((a, b), (b, a)):
         if isinstance(x, C) and x.v is None and isinstance(y, (Sym, App)) and run.kind_of(y) in ("func", "obj"):
             return False  # a callable / object symbol is some object, never None
+        if isinstance(x, Ref) and isinstance(y, (Sym, App, C, Tup)):
+            cx = run.heap.get(x.addr) or (I.base.heap.get(x.addr) if getattr(I, "base", None) is not None else None)
+            if isinstance(cx, HObj) and cx.cls == "builtins.object":
+                return False  # a private sentinel made with object(): nothing that comes from outside is that object
     return decide_cmp(I, run, "==", a, b, node)
 
 
@@ -600,6 +604,12 @@ def binop(I, run, op, a: Value, b: Value, node) -> Value:
         return App("%", (a, b), "str")
     if name == "*" and isinstance(a, Tup) and isinstance(b, C) and isinstance(b.v, int):
         return Tup(a.items * b.v)
+    if name == "*":
+        for x, y in ((a, b), (b, a)):
+            if isinstance(x, Ref) and isinstance(run.cell(x), HList) and isinstance(y, C) and isinstance(y.v, int) and not isinstance(y.v, bool) and y.v <= 100000:
+                return run.alloc(HList(list(run.cell(x).items) * max(y.v, 0)))   # [x] * n
+    if name == "+" and isinstance(a, Ref) and isinstance(run.cell(a), HList) and isinstance(b, Tup):
+        I.raise_builtin(run, "TypeError", node, C("can only concatenate list (not \"tuple\") to list"))
     if name == "*" and (ka in ("str", "bytes")) and kb == "int":
         return App("repeat", (a, b), ka)
     res = App(name, (a, b), "int" if (ka in ("int", "bool", None) and kb in ("int", "bool", None)) else None)
@@ -1095,10 +1105,18 @@ def call(I, run, fn: Value, args: List[Value], kwargs: Dict[str, Value], node) -
         if q in cfg.stubs:
             return cfg.stubs[q](I, run, args, kwargs, node)
         return instantiate(I, run, fn, args, kwargs, node)
+    if isinstance(fn, App) and fn.op == "hof":
+        from . import hof
+        return hof.call(I, run, fn, args, kwargs, node)
     if isinstance(fn, Ext):
         name = fn.name
         if name in cfg.stubs:
             return cfg.stubs[name](I, run, args, kwargs, node)
+        from . import hof
+        if name in hof.MAKERS:
+            return hof.make(name, args, kwargs)
+        if name in hof.DIRECT:
+            return hof.direct(I, run, name, args, kwargs, node)
         if name == "builtins.int.from_bytes":
             ra = [I.resolve(run, a) for a in args]
             ra = [C(EXT_CONST[a.name]) if isinstance(a, Ext) and a.name in EXT_CONST else a for a in ra]
@@ -1132,6 +1150,9 @@ def call(I, run, fn: Value, args: List[Value], kwargs: Dict[str, Value], node) -
     if isinstance(fn, App) and fn.op == "attr":
         recv, mname = fn.args[0], fn.args[1].v
         recv = I.resolve(run, recv)
+        if isinstance(recv, App) and recv.op == "hof":
+            from . import hof
+            return hof.method(I, run, recv, mname, args, kwargs, node)
         name = f"{I.describe(run, recv)}.{mname}"
         if name in cfg.stubs:
             return cfg.stubs[name](I, run, args, kwargs, node)
@@ -1225,6 +1246,9 @@ def str_method(I, run, recv, name, args, kwargs, node) -> Value:
         ln.lo = max(ln.lo, 1)
         if len(args) >= 2 and isinstance(args[1], C) and isinstance(args[1].v, int) and args[1].v >= 0:
             ln.hi = min(ln.hi, args[1].v + 1)
+        # the separator is known to occur in the string on this path (`if sep not in s: raise` before): at least two pieces
+        if args and isinstance(args[0], C) and run.memo.get(("in", args[0].key(), recv.key())) is True and not (len(args) >= 2 and args[1] == C(0)):
+            ln.lo = max(ln.lo, 2)
         if k == "bytes":
             run.kinds[res.key()] = "byteslist"
     errs = kwargs.get("errors", args[1] if len(args) > 1 else None) if name == "decode" else None
